@@ -39,6 +39,12 @@ class C17(L1Prop):
             ysrc = r.choice(["default", "default", f"flag:{dk}", f"env:{dk}"])
             boot = f"boot listen={lsrc}:{nl} dir={dsrc} allow={allow} versions={vsrc} days={ysrc}"
             ops = [boot]
+            # every third configuration: another connection to the database stays open throughout (a
+            # backup tool, a second worker), so that nothing is checkpointed when requests finish and
+            # the acknowledged history lives in the write-ahead log when the server is killed
+            held = k % 3 == 0
+            if held:
+                ops.append("hold")
             a = 0
             keep = k % 2 == 1          # every other configuration: one persistent connection per address, shared by all clients
             def at():
@@ -61,6 +67,8 @@ class C17(L1Prop):
             ops += [f"{at()} GET index - absent absent e", "dirstat", "kill", "restart"]
             for c in (1, 2, 3):
                 ops += [f"walk {c}", f"{at()} GET snap - hyph={c} absent e", f"{at()} POST av hyph=latest:{c} hyph={c} history b:5"]
+            if held:
+                ops.append("unhold")
             out.append(Case(f"c17-{k}", ops, {"boot": boot, "nl": nl, "allow": allow, "versions": vsrc, "days": ysrc}, mode="bin"))
         return out
     def relevant(self, i, trace):
